@@ -365,8 +365,8 @@ func CompileWarrior(r io.Reader, config SimulatorConfig) (WarriorData, error) {
 		} else {
 			break
 		}
-		// every pass expands a single block (the first outermost one), so
-		// this bounds the number of block instances, not the nesting depth
+		// every pass expands the outermost blocks, so this bounds the
+		// nesting depth (blocks produced by the expansion included)
 		depth++
 		if depth > 1000 {
 			return WarriorData{}, fmt.Errorf("for loop depth exceeded")
